@@ -25,6 +25,9 @@ func (h aggregatedBalancesResourceRepositoryHandler) BuildDataset(query common.R
 	canPushLateral := canPushAddressFilterToLateral(query.Builder)
 
 	if query.UsePIT() {
+		if !h.store.ledger.HasFeature(features.FeatureMovesHistory, "ON") {
+			return nil, NewErrMissingFeature(features.FeatureMovesHistory)
+		}
 		ret := h.store.newScopedSelect().
 			ModelTableExpr(h.store.GetPrefixedRelationName("moves")).
 			DistinctOn("accounts_address, asset").
